@@ -363,9 +363,58 @@ class SanitizeModel(GraphModel):
                     if isinstance(par, ast.Call) and dotted(par.func) in ('all', 'any', 'next'):
                         self.ev(ip, 'REC_SKIPPED', node, st, fr, how=dotted(par.func))
             return [(st.set(rec_called=True), T.mk(('mcall', fterm[1], 'sanitize', (), ())))]
-        return GraphModel.on_call(self, ip, node, fterm, args, kws, st, fr)
+        res = GraphModel.on_call(self, ip, node, fterm, args, kws, st, fr)
+        if fterm[0] == 'attr' and fterm[2] in self.INPLACE and (
+                T.is_attr(fterm[1], 'required') or fterm[1][0] == 'post'):
+            obj = fterm[1][1]
+            if res is None:
+                res = ip.call_generic(node, fterm, args, kws, st, fr)
+            return [(self._prune(obj, x, True), v) for x, v in res]
+        return res
+
+    # --- before / after: the requirement set of a member is an object; once it has been pruned, reading it
+    # gives the pruned contents, and so does every *alias* taken before an in-place prune (`b = j.required;
+    # j.required &= ...` leaves b pruned too), whereas copies and sizes taken before keep the old contents
+    INPLACE = ('intersection_update', 'difference_update', 'discard', 'remove', 'clear')
+
+    def _prune(self, obj, st, inplace):
+        old = T.mk(('attr', obj, 'required'))
+        post = T.mk(('post', obj, 'required'))
+        cur = dict(st.a('reqver') or ())
+        prev = cur.get(obj, old)
+        cur[obj] = post
+        st = st.set(reqver=tuple(sorted(cur.items(), key=repr)))
+        if inplace:
+            v = dict(st.vars)
+            ch = False
+            for k, t in v.items():
+                if t == prev:
+                    v[k] = post
+                    ch = True
+            if ch:
+                st = st._new(vars=v)
+        return st
+
+    def on_store_attr(self, ip, node, obj, attr, val, st, fr, aug=None):
+        r = GraphModel.on_store_attr(self, ip, node, obj, attr, val, st, fr, aug)
+        if attr == 'required':
+            if r is None:
+                r = ip.default_store_attr(obj, attr, st)
+            if isinstance(r, list):
+                return [self._prune(obj, b, aug is not None) for b in r]
+            return self._prune(obj, r, aug is not None)
+        return r
+
+    def on_attr(self, ip, node, base, attr, st, fr):
+        if attr == 'required' and isinstance(getattr(node, 'ctx', ast.Load()), ast.Load):
+            cur = dict(st.a('reqver') or ())
+            if base in cur:
+                return cur[base]
+        return GraphModel.on_attr(self, ip, node, base, attr, st, fr)
 
     def on_iter(self, ip, ctx, st, fr):
+        if ctx.kind == 'for' and st.a('reqver'):
+            st = st.set(reqver=None)        # another member: nothing pruned yet
         if ctx.kind == 'for' and ctx.iter == MEMBERS and not ip.in_summary and fr.depth == 0:
             if st.a('nested_iter') and not st.a('rec_called'):
                 self.ev(ip, 'REC_SKIPPED', ctx.node, st, fr)
@@ -425,6 +474,30 @@ def _eval_bool(e, env):
     raise ValueError("not a boolean expression of the flag")
 
 
+def _is_dangling(v, cur, members):
+    """v = cur - members (the requirements that are not members)"""
+    if v[0] == 'binop' and v[1] == 'Sub' and v[2] == cur and v[3] == members:
+        return True
+    if v[0] == 'mcall' and v[1] == cur and v[2] == 'difference' and v[3] == (members,):
+        return True
+    return False
+
+
+def _is_meet(v, cur, members):
+    """v = cur & members, in any of the spellings of set algebra"""
+    if v[0] == 'binop' and v[1] == 'BitAnd' and {v[2], v[3]} == {cur, members}:
+        return True
+    if v[0] == 'mcall' and v[2] == 'intersection' and len(v[3]) == 1 and {v[1], v[3][0]} == {cur, members}:
+        return True
+    # cur - (cur - members)
+    if v[0] == 'binop' and v[1] == 'Sub' and v[2] == cur and _is_dangling(v[3], cur, members):
+        return True
+    if v[0] == 'mcall' and v[1] == cur and v[2] == 'difference' and len(v[3]) == 1 \
+            and _is_dangling(v[3][0], cur, members):
+        return True
+    return False
+
+
 def sanitize_rules(ctx, rep, r1, r2, r3, r4):
     r = ctx.roles
     f = ctx.prog.supplier(r.sched, 'sanitize')
@@ -449,9 +522,7 @@ def sanitize_rules(ctx, rep, r1, r2, r3, r4):
         if e.kind == 'STORE':
             v = e.data['val']
             why = T.show(v, 4)
-            if v[0] == 'binop' and v[1] == 'BitAnd' and {v[2], v[3]} == {cur, MEMBERS}:
-                okval = True
-            if v[0] == 'mcall' and v[1] == cur and v[2] == 'intersection' and v[3] == (MEMBERS,):
+            if _is_meet(v, cur, MEMBERS):
                 okval = True
             if v[0] == 'comp' and len(v[3]) == 1 and strip_coll(v[3][0][1]) == cur:
                 el = T.mk(('elem', v[3][0][1], v[3][0][0]))
@@ -459,7 +530,9 @@ def sanitize_rules(ctx, rep, r1, r2, r3, r4):
                     okval = True
         else:
             why = ".%s(%s)" % (e.data['how'], ", ".join(T.show(a, 3) for a in e.data['args']))
-            okval = e.data['how'] == 'intersection_update' and e.data['args'] == (MEMBERS,)
+            okval = (e.data['how'] == 'intersection_update' and e.data['args'] == (MEMBERS,)) or \
+                (e.data['how'] == 'difference_update' and len(e.data['args']) == 1
+                 and _is_dangling(e.data['args'][0], cur, MEMBERS))
         lp = [c for c in e.loops if c.elem == o]
         conds = [k for k, v in e.st.facts.items() if T.contains(k, o) and k != MEMBERS]
         uncond = bool(lp) and not lp[0].conds and not conds
@@ -524,6 +597,7 @@ def sanitize_rules(ctx, rep, r1, r2, r3, r4):
                   "flag `%s` starts at %s, for which sanitize() returns %s" % (flag, init, good(init)),
                   "sanitize() of a sound scheduler returns False")
         nrows = 0
+        vac = set()
         for fin, new, ft, x in rows:
             if new is None:
                 rep.error(r4, "member loop of sanitize leaves early")
@@ -536,8 +610,19 @@ def sanitize_rules(ctx, rep, r1, r2, r3, r4):
                     ok = v
                 elif k[0] == 'cmp' and k[1] in ('!=', '==', '<', '>'):
                     removed = v if k[1] != '==' else (not v)
-                elif k[0] not in ('forall', 'exists') and T.mentions(k, lambda s: T.is_attr(s, 'required')):
+                elif k[0] not in ('forall', 'exists') and T.mentions(
+                        k, lambda s: T.is_attr(s, 'required') or s[0] == 'post'):
                     removed = v
+                if k[0] not in ('forall', 'exists', 'call') or (k[0] == 'call' and k[1] != 'isinstance'):
+                    pre = T.mentions(k, lambda s: T.is_attr(s, 'required'))
+                    post = T.mentions(k, lambda s: s[0] == 'post')
+                    if post and not pre and k not in vac:
+                        vac.add(k)
+                        rep.fail(r4, "%s the test for `something was removed` looks at the state before the prune"
+                                 % fn, fn, "`%s` is computed from the pruned set only (an alias of a set pruned in "
+                                 "place is pruned too)" % T.show(k, 5)[:160],
+                                 "the test can never see a removal: sanitize() returns True although requirements "
+                                 "were dropped")
             subs = [s for s in T.subterms(ft) if s[0] == 'mcall' and s[2] == 'sanitize'] if ft is not None else []
             for okv in ([ok] if ok is not None else [True, False]):
                 y = x
